@@ -121,79 +121,47 @@ def showFields : AnyParams → List String
 
 def showStored (p : AnyParams) : String := "|".intercalate (showFields p)
 
-def getMod (s : Store) (mod : String) : Option AnyParams :=
-  match mod with
-  | "coinswap" => some (.coinswap s.coinswap)
-  | "farm" => some (.farm s.farm)
-  | "htlc" => some (.htlc s.htlc)
-  | "service" => some (.service s.service)
-  | "token" => some (.token s.token)
-  | _ => none
+open Irismod.Spec.C16 (Mod MonOp MonObs getMod setMod allMods verdict resWord modelObs modelNext stepFails track)
 
-def setMod (s : Store) : AnyParams → Store
-  | .coinswap p => { s with coinswap := p }
-  | .farm p => { s with farm := p }
-  | .htlc p => { s with htlc := p }
-  | .service p => { s with service := p }
-  | .token p => { s with token := p }
+def modName : Mod → String
+  | .coinswap => "coinswap" | .farm => "farm" | .htlc => "htlc" | .service => "service" | .token => "token"
 
-def modNames : List String := ["coinswap", "farm", "htlc", "service", "token"]
+def parseMod (s : String) : Option Mod :=
+  allMods.find? fun m => modName m == s
 
 def showAll (s : Store) : String :=
-  " ".intercalate (modNames.filterMap fun m => (getMod s m).map fun p => m ++ "{" ++ showStored p ++ "}")
+  " ".intercalate (allMods.map fun m => modName m ++ "{" ++ showStored (getMod s m) ++ "}")
 
-def verdict : Res Unit → String
-  | .ok _ => "valid"
-  | .error .reject => "invalid"
-  | .error (.panic _) => "panic"
+/-- an op line as a monitor operation (and its module, needed to read the observation) -/
+def parseOp (t : List String) : Option (MonOp × Option Mod) :=
+  match t with
+  | ["params", "reset"] => some (.reset, none)
+  | "params" :: op :: r =>
+    match parseMod (arg r "module") with
+    | none => none
+    | some m =>
+      match op with
+      | "validate" => (parseFields (modName m) r).map fun p => (.validate p, some m)
+      | "update" =>
+        match parseFields (modName m) r, arg? r "sender" with
+        | some p, some sender => some (.update sender p, some m)
+        | _, _ => none
+      | "genesis" => (parseFields (modName m) r).map fun p => (.genesis p, some m)
+      | "battery" => some (.battery m, some m)
+      | _ => none
+  | _ => none
 
-def resWord {α : Type} : Res α → String
-  | .ok _ => "ok"
-  | .error .reject => "rej"
-  | .error (.panic _) => "panic"
-
-def batteryOf : AnyParams → List String
-  | .coinswap p => batteryCoinswap p
-  | .farm p => batteryFarm p
-  | .htlc p => batteryHtlc p
-  | .service p => batteryService p
-  | .token p => batteryToken p
+def showObs : MonObs → String
+  | .reset s => "ok " ++ showAll s
+  | .validate v => v
+  | .update cls post sv => s!"{cls} stored={showStored post} sv={sv}"
+  | .genesis vg ig pv post => s!"vg={vg} ig={ig} pv={pv} stored={showStored post}"
+  | .battery ps dflt => (if ps.isEmpty then "nopanic" else "panic:" ++ ",".intercalate ps) ++ " dflt=" ++ dflt
 
 def modelLine (s : Store) (line : String) : Store × String :=
-  let t := tokens line
-  match t with
-  | ["params", "reset"] => ({}, "ok " ++ showAll {})
-  | "params" :: op :: r =>
-    let mod := arg r "module"
-    match op with
-    | "validate" =>
-      match parseFields mod r with
-      | some p => (s, verdict (validateAny p))
-      | none => (s, "bad-op")
-    | "update" =>
-      match parseFields mod r, arg? r "sender" with
-      | some p, some sender =>
-        let res := stepUpdate s sender p
-        let s' := match res with | .ok s' => s' | .error _ => s
-        match getMod s' mod with
-        | some q => (s', s!"{resWord res} stored={showStored q} sv={verdict (validateAny q)}")
-        | none => (s, "bad-op")
-      | _, _ => (s, "bad-op")
-    | "genesis" =>
-      match parseFields mod r, getMod s mod with
-      | some p, some cur =>
-        let (vg, ig) := genesisAny p
-        let after := match ig with | .ok q => q | .error _ => cur
-        (s, s!"vg={resWord vg} ig={resWord ig} pv={verdict (validateAny p)} stored={showStored after}")
-      | _, _ => (s, "bad-op")
-    | "battery" =>
-      match getMod s mod with
-      | some cur =>
-        let ps := batteryOf cur
-        (s, (if ps.isEmpty then "nopanic" else "panic:" ++ ",".intercalate ps) ++ " dflt=ok")
-      | none => (s, "bad-op")
-    | _ => (s, "bad-op")
-  | _ => (s, "bad-op")
+  match parseOp (tokens line) with
+  | none => (s, "bad-op")
+  | some (op, _) => (modelNext s op, showObs (modelObs s op))
 
 def runModel (ops : Array String) : IO Unit := do
   let mut s : Store := {}
@@ -206,17 +174,41 @@ def runModel (ops : Array String) : IO Unit := do
 /-- `coinswap{k=v|k=v}` tokens of a reset observation -/
 def parseAll (o : List String) : Option Store := do
   let mut s : Store := {}
-  for m in modNames do
-    let tok ← o.find? (fun x => x.startsWith (m ++ "{"))
-    let body := String.ofList ((tok.toList.drop (m.length + 1)).dropLast)
-    let p ← parseFields m (body.splitOn "|")
+  for m in allMods do
+    let tok ← o.find? (fun x => x.startsWith (modName m ++ "{"))
+    let body := String.ofList ((tok.toList.drop ((modName m).length + 1)).dropLast)
+    let p ← parseFields (modName m) (body.splitOn "|")
     s := setMod s p
   return s
 
-def storedOf (mod : String) (o : List String) : Option AnyParams :=
-  (arg? o "stored").bind fun v => parseFields mod (v.splitOn "|")
+def storedOf (m : Mod) (o : List String) : Option AnyParams :=
+  (arg? o "stored").bind fun v => parseFields (modName m) (v.splitOn "|")
 
-/-- monitor: the stored sets are tracked from the *implementation's* observations -/
+/-- an observation line of the kind the operation expects -/
+def parseObs (op : MonOp) (m : Option Mod) (o : List String) : Option MonObs :=
+  match op, m with
+  | .reset, _ => (parseAll o).map .reset
+  | .validate _, _ => o.head?.map .validate
+  | .update _ _, some m =>
+    match o.head?, storedOf m o, arg? o "sv" with
+    | some cls, some post, some sv => some (.update cls post sv)
+    | _, _, _ => none
+  | .genesis _, some m =>
+    match arg? o "vg", arg? o "ig", arg? o "pv", storedOf m o with
+    | some vg, some ig, some pv, some post => some (.genesis vg ig pv post)
+    | _, _, _, _ => none
+  | .battery _, _ =>
+    match o.head?, arg? o "dflt" with
+    | some w, some dflt =>
+      if w = "nopanic" then some (.battery [] dflt)
+      else if w.startsWith "panic:" && w.length > 6 then
+        some (.battery ((String.ofList (w.toList.drop 6)).splitOn ",") dflt)
+      else none
+    | _, _ => none
+  | _, none => none
+
+/-- monitor: every clause is `Spec.C16.stepFails`; the stored sets are tracked from the
+    *implementation's* observations with `Spec.C16.track` -/
 def runMonitor (ops obs : Array String) : IO Unit := do
   let out ← IO.getStdout
   if ops.size ≠ obs.size then
@@ -226,46 +218,19 @@ def runMonitor (ops obs : Array String) : IO Unit := do
   let mut fails := 0
   let mut steps := 0
   for i in [0:ops.size] do
-    let t := tokens ops[i]!
-    let o := tokens obs[i]!
-    match t with
-    | ["params", "reset"] =>
-      match parseAll o with
-      | some s =>
-        st := s
-        if !(modNames.all fun m => match getMod s m with | some p => Spec.C16.isValid p | none => false) then
-          out.putStrLn s!"mon C16 FAIL clause=initial-params-fail-validate line={i+1}"; fails := fails + 1
-      | none => out.putStrLn s!"mon C16 FAIL clause=obs-parse line={i+1}"; fails := fails + 1
-    | "params" :: op :: r =>
-      let mod := arg r "module"
-      steps := steps + 1
+    match parseOp (tokens ops[i]!) with
+    | none => out.putStrLn s!"mon C16 FAIL clause=parse line={i+1}"; fails := fails + 1
+    | some (op, m) =>
       match op with
-      | "validate" => pure ()
-      | "update" =>
-        match parseFields mod r, arg? r "sender", storedOf mod o, getMod st mod, o.head? with
-        | some p, some sender, some post, some pre, some cls =>
-          for c in Spec.C16.updateFails pre sender p cls post (arg o "sv") do
-            out.putStrLn s!"mon C16 FAIL clause={c} line={i+1}"; fails := fails + 1
-          st := setMod st post
-        | _, _, _, _, _ => out.putStrLn s!"mon C16 FAIL clause=parse line={i+1}"; fails := fails + 1
-      | "genesis" =>
-        match storedOf mod o with
-        | some post =>
-          for c in Spec.C16.genesisFails (arg o "pv") (arg o "ig") post do
-            out.putStrLn s!"mon C16 FAIL clause={c} line={i+1}"; fails := fails + 1
-        | none => out.putStrLn s!"mon C16 FAIL clause=parse line={i+1}"; fails := fails + 1
-      | "battery" =>
-        match getMod st mod, o.head? with
-        | some cur, some w =>
-          let panics := if w.startsWith "panic:" then ((String.ofList (w.toList.drop 6)).splitOn ",") else []
-          if w ≠ "nopanic" && panics.isEmpty then
-            out.putStrLn s!"mon C16 FAIL clause=parse line={i+1}"; fails := fails + 1
-          for (c, cl) in Spec.C16.batteryFails cur panics (arg o "dflt") do
-            let tag := match cl with | some k => s!" class={k}" | none => ""
-            out.putStrLn s!"mon C16 FAIL clause={c} line={i+1}{tag}"; fails := fails + 1
-        | _, _ => out.putStrLn s!"mon C16 FAIL clause=parse line={i+1}"; fails := fails + 1
-      | _ => out.putStrLn s!"mon C16 FAIL clause=parse line={i+1}"; fails := fails + 1
-    | _ => out.putStrLn s!"mon C16 FAIL clause=parse line={i+1}"; fails := fails + 1
+      | .reset => pure ()
+      | _ => steps := steps + 1
+      match parseObs op m (tokens obs[i]!) with
+      | none => out.putStrLn s!"mon C16 FAIL clause=obs-parse line={i+1}"; fails := fails + 1
+      | some o =>
+        for (c, cl) in stepFails st op o do
+          let tag := match cl with | some k => s!" class={k}" | none => ""
+          out.putStrLn s!"mon C16 FAIL clause={c} line={i+1}{tag}"; fails := fails + 1
+        st := track st op o
   out.putStrLn s!"mon C16 done steps={steps} fails={fails}"
 
 def readLines (p : String) : IO (Array String) := do
